@@ -7,6 +7,8 @@
 //	       against the recorded global change order by a Go-side oracle (shape, exactly-once, order, completeness,
 //	       no overlapping callbacks of one subscription, no callback after unsubscribe returned) and, as VFree/SFree
 //	       cases, by the Coq predicates.
+//	aseq / afree (api.go): the whole exported API.  dseq / dfree (wired.go): a DerivedSet that inherits from its sources and is
+//	       written directly, the result of SubtractReactive - the inheritance machinery as one more writer of the set.
 package main
 
 import (
@@ -529,6 +531,7 @@ type freeRun struct {
 	Returns []pair    `json:"-"`
 	Hang    bool      `json:"hang,omitempty"`
 	Decodes int       `json:"decodes,omitempty"` // Set.Decode calls (writers whose applied mutation is not returned)
+	Loose   bool      `json:"loose,omitempty"`   // wired runs: any number of notified changes is caused by writers that return nothing to the harness (the inheritance machinery)
 	Extra   []string  `json:"extra,omitempty"`   // failures noticed by the goroutines themselves
 }
 
@@ -852,7 +855,7 @@ func judgeFree(m sem, fr *freeRun) (fails []string, midstream int) {
 			fails = append(fails, fmt.Sprintf("subscriber %d: a callback was still running when its unsubscribe returned", i))
 		}
 	}
-	if fr.Kind == "set" || fr.Kind == "set-api" {
+	if strings.HasPrefix(fr.Kind, "set") {
 		// the writers' return values are the same multiset as the notified changes
 		a := append([]pair{}, fr.G...)
 		b := append([]pair{}, fr.Returns...)
@@ -869,7 +872,7 @@ func judgeFree(m sem, fr *freeRun) (fails []string, midstream int) {
 			cnt[key(g, true)]++
 			cntDel[g[1]]++
 		}
-		okRet := len(a) >= len(b) && len(a)-len(b) <= fr.Decodes // a Decode notifies at most once and returns no mutation
+		okRet := len(a) >= len(b) && (fr.Loose || len(a)-len(b) <= fr.Decodes) // a Decode notifies at most once and returns no mutation
 		for _, x := range b {
 			if x[0] == ^uint64(0) {
 				cntDel[x[1]]--
@@ -892,7 +895,7 @@ func judgeFree(m sem, fr *freeRun) (fails []string, midstream int) {
 }
 
 func emitFree(cf *vx.CasesFile, st *vx.Stats, fr *freeRun, seed uint64, idx int) {
-	isSet := fr.Kind == "set" || fr.Kind == "set-api"
+	isSet := strings.HasPrefix(fr.Kind, "set")
 	m := varSem
 	if isSet {
 		m = setSem
@@ -963,15 +966,17 @@ func main() {
 	nstorm := fs.Int("nstorm", 6, "storm runs (tight writers vs subscribe/unsubscribe loops)")
 	napi := fs.Int("napi", 200, "sequential scripts over the whole exported API (Init, ToggleValue, InheritFrom, OnUpdateOnce, OnUpdateWithContext, WithValue, LogUpdates, WithElements)")
 	nfreeapi := fs.Int("nfreeapi", 150, "free-running runs over the whole exported API")
+	nwired := fs.Int("nwired", 0, "sequential scripts over wired sets: a DerivedSet that inherits from its sources AND is written directly / the result of SubtractReactive (wired.go)")
+	nfreewired := fs.Int("nfreewired", 0, "free-running runs over the same wired sets")
 	maxLen := fs.Int("len", 24, "")
 	seed := fs.Uint64("seed", 1, "")
 	out := fs.String("out", "cases.v", "")
 	stats := fs.String("stats", "stats.json", "")
 	_ = fs.Parse(os.Args[2:])
 	r := vx.NewRng(*seed)
-	st := vx.NewStats("seq: random scripts (<=4 callbacks, values 0..3 / 6 set elements; Set,Compute,DefaultTo,Trigger | Apply,Add,AddAll,Delete,DeleteAll,Compute,Replace; OnUpdate with/without zero trigger; unsubscribe, also twice), distinct = distinct scripts, non-trivial = some subscriber saw >= 2 callbacks. free: 1-3 writers, 1-4 subscribers, 0-2 unsubscribers per subscription racing, callbacks yield; distinct by (seed,index), non-trivial = some subscription landed strictly inside the change sequence of >= 3 changes")
+	st := vx.NewStats("seq: random scripts (<=4 callbacks, values 0..3 / 6 set elements; Set,Compute,DefaultTo,Trigger | Apply,Add,AddAll,Delete,DeleteAll,Compute,Replace; OnUpdate with/without zero trigger; unsubscribe, also twice), distinct = distinct scripts, non-trivial = some subscriber saw >= 2 callbacks. free: 1-3 writers, 1-4 subscribers, 0-2 unsubscribers per subscription racing, callbacks yield; distinct by (seed,index), non-trivial = some subscription landed strictly inside the change sequence of >= 3 changes. dseq (wired.go): scripts over a DerivedSet with 1-3 sources (InheritFrom, un-inherit, source writes AND direct writes, 4 elements) / the result of SubtractReactive; non-trivial = a subscriber was told >= 2 mutations, at least one caused by the inheritance machinery, and the script also writes the target directly")
 	cf := &vx.CasesFile{
-		Header: "From Coq Require Import NArith List.\nFrom Verif.C13_Reactive Require Import Model Corr.\nImport ListNotations.\n",
+		Header: "From Coq Require Import NArith List.\nFrom Verif.C13_Reactive Require Import Model Api Corr.\nImport ListNotations.\n",
 		Type:   "case",
 		Footer: "Definition M := Eval vm_compute in mismatches cases.\nPrint M.\n",
 	}
@@ -1034,6 +1039,17 @@ func main() {
 		}
 		emitFree(cf, st, fr, *seed, *nfree+i)
 		if fr.Hang {
+			break
+		}
+	}
+	// the wired family (wired.go) comes last: the case indices and random streams of the older families are unchanged
+	rw := r.Fork()
+	wiredSeq(rw, cf, st, *nwired, *maxLen)
+	for i := 0; i < *nfreewired && !hung; i++ {
+		fr := freeWired(rw.Fork())
+		emitFree(cf, st, fr, *seed, *nfree+*nfreeapi+i)
+		if fr.Hang {
+			hung = true
 			break
 		}
 	}
